@@ -198,7 +198,7 @@ class Structure:
         out = []
         for n, i in enumerate(idx):
             r = self.records[i]
-            ln = fmt_atom(n + 1, r["name"], r["resn"], r["chain"], r["seq"], r["icode"],
+            ln = fmt_atom(r.get("serial", n + 1), r["name"], r["resn"], r["chain"], r["seq"], r["icode"],
                           r["xyz"], rec=r["rec"], alt=r["alt"])  # fmt: skip
             cols = getattr(self, "columns", None)
             if cols == "no-element":
